@@ -188,8 +188,7 @@ L['C19'] = dict(modules=['Schc.Properties.C19'], level='proof', technique='Lean 
               T('C19_single_unparse', 'full', 'the same for the CoAP parser alone'),
               T('C19_stack_roundtrip', 'full', 'parse with the semantic stack, compress with any fitting lossless rule, decompress with the parser as unparser: the packet, bit for bit'),
               T('C19_stack_roundtrip_compute', 'full', 'the same with IPv6 payload length / UDP length / UDP checksum as compute fields (any subset): un-parse first, then compute over the re-encoded options; valid packets come back bit for bit'),
-              T('C19_unparse_nothing_lost', 'full', 'any stack without a semantic CoAP parser — header classes listed twice, prediction, any field order: PacketParser.unparse returns a permutation of its input (nothing lost, nothing duplicated)'),
-              T('C19_unparse_predictive', 'full', 'a one-parser (predictive) stack as unparser: own header fields, then predicted headers and payload, come back unchanged in order'),
+              T('C19_unparse_identity', 'full', 'any stack without a semantic CoAP parser — header classes listed twice or again after another header, prediction: PacketParser.unparse is the identity (every field once, in order)'),
               T('C19_stack_roundtrip_compute4', 'full', 'the IPv4 variant: total length, header checksum, UDP length, UDP checksum as compute fields (any subset)')],
     level_text='Proved for messages of any length with any number of options, any option numbers (known and unknown to the library), any deltas and value lengths, with and without payload, under the hypothesis that no delta/length nibble is the reserved value 15 (RFC 7252 cannot encode such options; an example shows the hypothesis is needed). Values compared as (field id, Buffer) pairs, exactly. Trusted/abstracted: Python re.match and int() on the rendered OPTION_UNKNOWN(n) id are modelled by unknownOptionNumber (checked by the parse stream on unknown options); str(Enum) rendering is read from the running interpreter by the translator. PacketParser.unparse dispatch (parser.py) is covered by correspondence, not by this theorem.')
 for k in L:
